@@ -517,8 +517,13 @@ PROPS["C28"] = {
     "design_ref": "DESIGN.md section 3, C28 and section 7",
 }
 
-PROPS["C01"]["e2"] = ["c17", "c01", "replay", "closecp"]
-PROPS["C01"]["functions_encoded"] += ["engine::replay_graph_transactions", "engine::GraphEngine::checkpoint_on_close"]
+PROPS["C01"]["e2"] = ["c17", "c01", "replay", "closecp", "commit"]
+PROPS["C01"]["functions_encoded"] += ["engine::replay_graph_transactions", "engine::GraphEngine::checkpoint_on_close", "engine::WriteTxn::commit"]
+PROPS["C01"]["bounds"]["commit"] = ("a transaction with one created node, one label addition, one label removal, one relationship, one node tombstone and one "
+                                    "relationship tombstone (ids symbolic), no property changes; optionally a failure at any single log append or at the fsync")
+PROPS["C01"]["stubs"] += ["commit: Wal::append / Wal::fsync / IdMap::apply_* / publish_run / update_published_node_labels / next_txid are event recorders "
+                          "(append and fsync can fail in the fault target); MemTable property extraction returns empty lists, freeze_into_run a one-element run"]
+PROPS["C01"]["outside_claim"] = PROPS["C01"].get("outside_claim", []) + ["the index-maintenance phase of commit (it runs before CommitTx is durable and is not logged)"]
 PROPS["C01"]["stubs"] += ["checkpoint_on_close: locks, label snapshot, segment pointer list, root loads opaque; the atomics are symbolic 64-bit cells; "
                           "Wal::rewrite_as_snapshot records its arguments"]
 PROPS["C01"]["bounds"]["replay"] = ("committed lists of 1 transaction x <= 2 records and 2 transactions x <= 1 record (quick), 2 x 2 (thorough); every "
@@ -529,7 +534,9 @@ PROPS["C01"]["level_text"] = PROPS["C01"]["level_text"].replace(
     "and of engine::replay_graph_transactions (every record of every committed, not-checkpointed transaction is applied through the matching "
     "call with its own arguments, in log order; checkpointed transactions are skipped entirely; one run per applied transaction), and of "
     "GraphEngine::checkpoint_on_close (the Checkpoint it writes covers exactly the ids handed out before the close, so a transaction committed "
-    "after reopen can never be skipped by a later recovery), plus Kani/CBMC round trips")
+    "after reopen can never be skipped by a later recovery), and of WriteTxn::commit as a trace property (BeginTx first, one record per buffered change, "
+    "CommitTx last, Wal::fsync after CommitTx and before anything is published or commit returns; a failed append/fsync publishes nothing), "
+    "plus Kani/CBMC round trips")
 PROPS["C02"]["e2"] = ["c02", "replay"]
 PROPS["C02"]["functions_encoded"] += ["engine::replay_graph_transactions"]
 PROPS["C02"]["level_text"] = PROPS["C02"]["level_text"].replace(
